@@ -38,3 +38,10 @@ mod tests {
         Ok(())
     }
 }
+
+#[cfg(noodles_verif)]
+#[doc(hidden)]
+pub mod verif_hooks {
+    //! Re-exports for verification harnesses (`--cfg noodles_verif`).
+    pub use super::{decode::decode, encode::encode};
+}
